@@ -77,6 +77,11 @@ type Scenario struct {
 	// PoolPricedElys: the native token has no oracle feed (as on the live chain); every price look-up for it falls
 	// back to the spot price of its best constant-product pool against the base currency
 	PoolPricedElys bool `json:"pool_priced_elys,omitempty"`
+	// ModestUser: the last user is no whale. It starts with ModestUSDC base-currency units and about 4 500 USD worth
+	// of the other funded denoms, which puts its recorded portfolio into one of the lower membership tiers (the fee
+	// discounts of Basic / Bronze / Silver / Gold instead of everybody's Platinum)
+	ModestUser bool   `json:"modest_user,omitempty"`
+	ModestUSDC string `json:"modest_usdc,omitempty"`
 }
 
 func DefaultScenario() Scenario {
@@ -255,6 +260,23 @@ func (w *World) buildGenesis() ([]byte, []byte) {
 		coins := sdk.NewCoins()
 		for _, d := range sc.Denoms {
 			coins = coins.Add(sdk.NewCoin(d, fund))
+		}
+		if sc.ModestUser && len(w.Accounts) > 0 && a == w.Accounts[len(w.Accounts)-1] {
+			usdc, ok := sdkmath.NewIntFromString(sc.ModestUSDC)
+			if !ok {
+				panic("bad modest_usdc")
+			}
+			coins = sdk.NewCoins()
+			for _, d := range sc.Denoms {
+				switch d {
+				case ptypes.BaseCurrency:
+					coins = coins.Add(sdk.NewCoin(d, usdc))
+				case ptypes.ATOM:
+					coins = coins.Add(sdk.NewCoin(d, sdkmath.NewInt(100_000_000)))
+				default:
+					coins = coins.Add(sdk.NewCoin(d, sdkmath.NewInt(1_000_000_000)))
+				}
+			}
 		}
 		balances = append(balances, banktypes.Balance{Address: a.Addr.String(), Coins: coins})
 		total = total.Add(coins...)
